@@ -4,11 +4,26 @@
    facts about the state the Go code relies on for none of them to fire, and that these facts are
    kept by well-bracketed runs from genesis.
    Main results:
-     deliver_never_panics            (N1)  DeliverTx, under [state_ok s]
-     begin_block_never_panics        (N2)  BeginBlock, under [state_ok s], [block_ok s]
-     end_block_never_panics          (N2)  EndBlock, under [state_ok s], [block_ok s], [keys_ok s]
-     run_never_panics                (N3)  well-bracketed runs from [init_chain g]
-     *_refuted / deliver_panics_reachable  each hypothesis dropped in turn: concrete witnesses *)
+     deliver_never_panics        (N1) DeliverTx under [state_ok s], [tx_wf t], [payload_kind_ok t]
+     begin_block_never_panics    (N2) BeginBlock under [reward_heights_ok s], [heights_ok s], consecutive
+                                      heights, no votes before the first commit
+     end_block_never_panics      (N2) EndBlock under [0 ≤ maxValidatorCnt], [keys_ok s],
+                                      [gov_ok _ (base_of s)], [frozen_owned _ (base_of s)]
+     run_never_panics            (N3) well-bracketed runs from [init_chain g]: BeginBlock and EndBlock
+                                      succeed, DeliverTx never panics; [run_no_step_panics] the same
+                                      as "no step returns Panic"; [run_invariant]: the hypotheses of
+                                      N1/N2 are invariants of such runs
+     run_never_panics_C02_C11    (N3) the external hypothesis in the shared vocabulary
+                                      (delegatee_ok, ranges_ok, supply < 2^63 RIGO at every prefix)
+   Witnesses that the hypotheses are needed (all by computation on concrete chains):
+     deliver_panics_reachable                 supply of 2^63 RIGO: AmountToPower panics in DeliverTx
+     deliver_never_panics_refuted_total       bonded + balance ≥ 2^63 RIGO: "power overflow" panic
+     deliver_never_panics_refuted_kind        TRX_UNSTAKING without unstaking payload
+     deliver_never_panics_refuted_minstake    minValidatorStake < 1 RIGO: limiter divides by zero
+     begin_block_never_panics_refuted_votes   votes in block 1
+     end_block_never_panics_refuted_bracket   EndBlock twice
+     run_never_panics_refuted_consistent      unparsable option flagged as parsable
+     run_never_panics_refuted_params          option with maxValidatorCnt = -1 *)
 From Rigo Require Import Base.
 From stdpp Require Import gmap sorting.
 From Rigo Require Import Spec SpecProps.
@@ -63,12 +78,13 @@ Definition reward_heights_ok (s : state) : Prop :=
   ∀ a r, rewards (work s) !! a = Some r → r_height r ≤ b_height (bctx s).
 
 (* Each conjunct, and the Go line that relies on it:
-   params_ok          AmountToPower(MinValidatorStake/MinDelegatorStake) ctrlers/stake/ctrler.go:446,460;
-                      fee arithmetic of commonValidation (amount ≤ balance is derived from it)
-   supply_small       AmountToPower(tx.Amount) ctrler.go:428 and gov_params.go:611;
-                      "check overflow" panic ctrler.go:474
+   params_ok          AmountToPower(MinValidatorStake / MinDelegatorStake), ctrlers/stake/ctrler.go:447,459
+                      (panic at ctrlers/types/gov_params.go:612); gasPrice < 2^192 makes the fee check of
+                      commonValidation mean "amount ≤ balance"; 0 < maxValidatorCnt, see lim_ok
+   supply_small       AmountToPower(tx.Amount) ctrler.go:427 (panic gov_params.go:612);
+                      "check overflow" panic ctrler.go:474-475 (totalPower + txPower ≤ 0)
    totals_nonneg      SelfStakeRatio divides by TotalPower + added, delegatee.go:234; ctrler.go:474
-   lim_ok             limiter.go:155 (powerObjs[maxValidatorCnt-1]) and :163 (/ baseTotalPower)
+   lim_ok             limiter.go:155 (powerObjs[maxValidatorCnt-1]) and limiter.go:163 (/ baseTotalPower)
    reward_heights_ok  Reward.Withdraw panics when rwd.height > h, reward.go:63 *)
 Definition state_ok (s : state) : Prop :=
   params_ok (gparams s) ∧ supply_small (work s) ∧ totals_nonneg (work s) ∧ lim_ok (lim s) ∧
@@ -921,3 +937,1152 @@ Proof.
   rewrite E in H. discriminate.
 Qed.
 Print Assumptions end_block_never_panics.
+
+(* ================================================================== N3: runs *)
+(* a parameter document that keeps well-formed parameters well-formed when applied *)
+Definition opt_ok (np : params) : Prop := ∀ cur, params_ok cur → params_ok (merge_params cur np).
+
+(* hypotheses on transactions: the parse flag of a proposal payload is what the harness says it is
+   (every option parsed), and the parameter documents keep the parameters in range *)
+Definition payload_consistent (t : tx) : Prop :=
+  match t_payload t with
+  | PProposal _ _ _ _ opts parse_ok => parse_ok = true → Forall (λ o : N * option params, is_Some o.2) opts
+  | _ => True end.
+Definition proposal_params_ok (t : tx) : Prop :=
+  match t_payload t with
+  | PProposal _ _ _ _ opts _ => Forall (λ o : N * option params, ∀ np, o.2 = Some np → opt_ok np) opts
+  | _ => True end.
+
+Definition fr_owned (A : gmap addr account) (m : gmap hash stake) : Prop :=
+  ∀ h st, m !! h = Some st → is_Some (A !! s_from st).
+Definition dels_owned (A : gmap addr account) (m : gmap addr delegatee) : Prop :=
+  ∀ a d st, m !! a = Some d → st ∈ d_stakes d → is_Some (A !! s_from st).
+Definition owned (A : gmap addr account) (l : ledgers) : Prop := dels_owned A (dels l) ∧ fr_owned A (frozen l).
+
+(* the part of the invariant that lives in the working ledgers *)
+Definition W (h : Z) (l : ledgers) : Prop := gov_ok opt_ok l ∧ owned (accts l) l ∧ RH h l.
+Definition grows (l l' : ledgers) : Prop :=
+  accts_mono (accts l) (accts l') ∧ (∀ k, is_Some (props l !! k) → is_Some (props l' !! k)) ∧
+  (∀ k, is_Some (fprops l !! k) → is_Some (fprops l' !! k)).
+
+Lemma grows_refl l : grows l l.
+Proof. split; [apply accts_mono_refl|]. split; auto. Qed.
+Lemma grows_trans l1 l2 l3 : grows l1 l2 → grows l2 l3 → grows l1 l3.
+Proof.
+  intros (A1 & B1 & C1) (A2 & B2 & C2). split; [eapply accts_mono_trans; eassumption|]. split; auto.
+Qed.
+
+Lemma owned_mono A A' l : accts_mono A A' → owned A l → owned A' l.
+Proof.
+  intros Hm [Hd Hf]. split.
+  - intros a d st H1 H2. apply Hm. eapply Hd; eassumption.
+  - intros h st H1. apply Hm. eapply Hf; eassumption.
+Qed.
+
+(* a step that touches accounts only *)
+Lemma W_accts h l l' :
+  props l' = props l → fprops l' = fprops l → dels l' = dels l → frozen l' = frozen l →
+  rewards l' = rewards l → accts_mono (accts l) (accts l') → W h l → W h l' ∧ grows l l'.
+Proof.
+  intros Ep Ef Ed Efr Er Hm ([Hg1 Hg2] & Ho & Hr). split; [split; [|split]|].
+  - split; [rewrite Ep; exact Hg1|rewrite Ef; exact Hg2].
+  - apply (owned_mono _ _ _ Hm) in Ho. destruct Ho as [H1 H2]. split; [rewrite Ed; exact H1|rewrite Efr; exact H2].
+  - unfold RH. rewrite Er. exact Hr.
+  - split; [exact Hm|]. rewrite Ep, Ef. split; auto.
+Qed.
+
+Lemma W_set_acct h l a x : W h l → W h (set_acct l a x) ∧ grows l (set_acct l a x).
+Proof. apply W_accts; try reflexivity. apply accts_mono_insert. Qed.
+
+Lemma W_find_or_new h l a : W h l → W h (find_or_new l a).1 ∧ grows l (find_or_new l a).1.
+Proof.
+  intros H. unfold find_or_new. destruct (accts l !! a); cbn [fst].
+  - split; [exact H|apply grows_refl].
+  - apply W_set_acct. exact H.
+Qed.
+
+Lemma W_step h l l1 l2 : (W h l1 ∧ grows l l1) → (W h l1 → W h l2 ∧ grows l1 l2) → W h l2 ∧ grows l l2.
+Proof. intros [H1 G1] H. destruct (H H1) as [H2 G2]. split; [exact H2|eapply grows_trans; eassumption]. Qed.
+
+(* ------------------------------------------------------------------ the EVM path *)
+Lemma evm_execute_W h l t l' gas : evm_execute l t = Ok (l', gas) → W h l → W h l' ∧ grows l l'.
+Proof.
+  unfold evm_execute. intros H Hw. destruct (t_evm t) as [e|]; [|discriminate].
+  destruct (negb (e_ok e)); [discriminate|]. injection H as <- _.
+  match goal with |- context [foldl ?f l (e_accts e)] =>
+    assert (H1 : W h (foldl f l (e_accts e)) ∧ grows l (foldl f l (e_accts e))) end.
+  { apply (foldl_inv _ (λ x, W h x ∧ grows l x)); [|split; [exact Hw|apply grows_refl]].
+    intros x [[a bal] nonce] _ Hx. eapply W_step; [exact Hx|]. apply W_set_acct. }
+  destruct (e_created e) as [c|]; [|exact H1].
+  eapply W_step; [exact H1|]. apply W_set_acct.
+Qed.
+
+(* ------------------------------------------------------------------ accounts *)
+Lemma acct_execute_W h l t l' : acct_execute l t = Ok l' → W h l → W h l' ∧ grows l l'.
+Proof.
+  unfold acct_execute. intros H Hw.
+  destruct (accts l !! t_from t) as [sender|]; [|discriminate].
+  destruct (accts l !! t_to t) as [receiver|]; [|discriminate].
+  destruct (t_type t =? TRX_TRANSFER).
+  - destruct (sub_balance sender (t_amount t)) as [sender'|]; [|discriminate].
+    destruct (add_balance _ (t_amount t)) as [recv'|]; [|discriminate]. injection H as <-.
+    eapply W_step; [apply W_set_acct; exact Hw|]. apply W_set_acct.
+  - destruct (t_payload t); try discriminate. injection H as <-. apply W_set_acct. exact Hw.
+Qed.
+
+(* ------------------------------------------------------------------ governance *)
+Lemma option_ok_set_votes Q v o : option_ok Q o → option_ok Q (set_votes v o).
+Proof. intros (np & H1 & H2). exists np. split; [exact H1|exact H2]. Qed.
+
+Lemma alter_votes_nonempty (f : voption → voption) i os : os ≠ [] → alter f i os ≠ [].
+Proof. intros H E. apply H. apply length_zero_iff_nil. rewrite <- (alter_length f os i), E. reflexivity. Qed.
+
+Lemma cancel_vote_ok Q os v :
+  (os ≠ [] → (cancel_vote os v).1 ≠ []) ∧ (Forall (option_ok Q) os → Forall (option_ok Q) (cancel_vote os v).1).
+Proof.
+  unfold cancel_vote. destruct (0 <=? v_choice v); cbn [fst]; [|split; auto]. split.
+  - apply alter_votes_nonempty.
+  - intros H. apply Forall_alter; [exact H|]. intros x _. apply option_ok_set_votes.
+Qed.
+Lemma do_vote_ok Q os v c :
+  (os ≠ [] → (do_vote os v c).1 ≠ []) ∧ (Forall (option_ok Q) os → Forall (option_ok Q) (do_vote os v c).1).
+Proof.
+  unfold do_vote. destruct (0 <=? c); cbn [fst]; [|split; auto]. split.
+  - apply alter_votes_nonempty.
+  - intros H. apply Forall_alter; [exact H|]. intros x _. apply option_ok_set_votes.
+Qed.
+
+Lemma prop_vote_ok Q p a c p' : prop_vote p a c = Some p' → prop_ok Q p → prop_ok Q p'.
+Proof.
+  unfold prop_vote. intros H (Hne & Hopts & Hmaj).
+  destruct (p_voters p !! a) as [v|]; [|discriminate]. cbn [mbind option_bind] in H.
+  destruct (cancel_vote (p_options p) v) as [o1 v1] eqn:E1.
+  destruct (do_vote o1 v1 c) as [o2 v2] eqn:E2. injection H as <-.
+  pose proof (cancel_vote_ok Q (p_options p) v) as [N1 F1]. rewrite E1 in N1, F1. cbn [fst] in N1, F1.
+  pose proof (do_vote_ok Q o1 v1 c) as [N2 F2]. rewrite E2 in N2, F2. cbn [fst] in N2, F2.
+  split; [cbn; auto|]. split; cbn; [intros Ht; auto|exact Hmaj].
+Qed.
+
+Lemma gov_validate_proposal s t : gov_validate s t = None → t_type t = TRX_PROPOSAL →
+  ∃ start period apply opttype opts flag, t_payload t = PProposal start period apply opttype opts flag ∧
+    opts ≠ [] ∧ (opttype = PROPOSAL_GOVPARAMS → flag = true).
+Proof.
+  unfold gov_validate. intros H E4. rewrite E4 in H. cbn [Z.eqb TRX_PROPOSAL Pos.eqb] in H.
+  destruct (negb (t_to t =? 0)%N); [discriminate|].
+  destruct (negb (is_validator s (t_from t))); [discriminate|].
+  destruct (t_payload t) as [| | |start period apply opttype opts flag| | |]; try discriminate.
+  destruct (match props (work s) !! t_hash t with Some _ => true | None => false end); [discriminate|].
+  destruct (start <=? _); [discriminate|].
+  destruct (_ || _); [discriminate|].
+  destruct ((opttype =? PROPOSAL_GOVPARAMS) && negb flag) eqn:Ef; [discriminate|].
+  destruct (_ <? start); [discriminate|].
+  destruct (_ || _); [discriminate|].
+  destruct opts as [|o opts]; [discriminate|].
+  eexists _, _, _, _, _, _. split; [reflexivity|]. split; [discriminate|].
+  intros ->. rewrite Z.eqb_refl in Ef. destruct flag; [reflexivity|discriminate].
+Qed.
+
+Lemma gov_execute_W h s l t l' :
+  gov_execute s l t = Ok l' →
+  (t_type t = TRX_PROPOSAL → ∃ s1, gov_validate s1 t = None) →
+  payload_consistent t → proposal_params_ok t →
+  W h l → W h l' ∧ grows l l'.
+Proof.
+  unfold gov_execute. intros H Hv Hpc Hpp ([Hg1 Hg2] & Ho & Hr).
+  ty_case t TRX_PROPOSAL E4.
+  - destruct (Hv E4) as [s1 Hv1].
+    destruct (gov_validate_proposal s1 t Hv1 E4) as (start & period & apply & opttype & opts & flag & Ep & Hne & Hfl).
+    unfold payload_consistent in Hpc. unfold proposal_params_ok in Hpp. rewrite Ep in H, Hpc, Hpp.
+    injection H as <-. split; [split; [|split]|].
+    + split; [|exact Hg2]. cbn. intros k p Hk. apply lookup_insert_Some in Hk as [[_ <-]|[_ Hk]]; [|eapply Hg1; exact Hk].
+      split; [cbn; destruct opts; [contradiction|discriminate]|]. split; cbn; [|discriminate].
+      intros Ht. specialize (Hpc (Hfl Ht)). apply Forall_fmap.
+      rewrite Forall_forall in Hpc, Hpp. apply Forall_forall. intros o Hin.
+      destruct (Hpc o Hin) as [np Hnp]. exists np. cbn. split; [exact Hnp|]. apply (Hpp o Hin). exact Hnp.
+    + exact Ho.
+    + exact Hr.
+    + split; [apply accts_mono_refl|]. split; [|auto]. cbn. intros k Hk. apply lookup_insert_is_Some'. right. exact Hk.
+  - destruct (t_payload t) as [| | | |ph choice| |]; try discriminate.
+    destruct (props l !! ph) as [q|] eqn:Eq; [|discriminate].
+    destruct (prop_vote q (t_from t) choice) as [q'|] eqn:Ev; [|discriminate]. injection H as <-.
+    split; [split; [|split]|].
+    + split; [|exact Hg2]. cbn. intros k p Hk. apply lookup_insert_Some in Hk as [[_ <-]|[_ Hk]]; [|eapply Hg1; exact Hk].
+      eapply prop_vote_ok; [exact Ev|]. eapply Hg1. exact Eq.
+    + exact Ho.
+    + exact Hr.
+    + split; [apply accts_mono_refl|]. split; [|auto]. cbn. intros k Hk. apply lookup_insert_is_Some'. right. exact Hk.
+Qed.
+
+(* ------------------------------------------------------------------ staking *)
+Lemma find_stake_elem h l s0 : find_stake h l = Some s0 → s0 ∈ l.
+Proof.
+  induction l as [|s r IH]; simpl; [discriminate|].
+  destruct (s_hash s =? h)%N; [intros [= <-]; left|intros H; right; apply IH; exact H].
+Qed.
+Lemma remove_stake_elem h l st : st ∈ remove_stake h l → st ∈ l.
+Proof.
+  induction l as [|s r IH]; simpl; [auto|].
+  destruct (s_hash s =? h)%N; [intros H; right; exact H|].
+  intros H. apply elem_of_cons in H as [->|H]; [left|right; apply IH; exact H].
+Qed.
+
+Lemma freeze_all_owned A fr r ss :
+  fr_owned A fr → (∀ st, st ∈ ss → is_Some (A !! s_from st)) → fr_owned A (freeze_all fr r ss).
+Proof.
+  unfold freeze_all. intros Hf Hs. apply (foldl_inv _ (fr_owned A)); [|exact Hf].
+  intros m st Hin Hm h st' Hk. apply lookup_insert_Some in Hk as [[_ <-]|[_ Hk]]; [exact (Hs st Hin)|eapply Hm; exact Hk].
+Qed.
+
+Lemma stake_execute_W s l t l' :
+  stake_execute s l t = Ok l' → W (b_height (bctx s)) l → W (b_height (bctx s)) l' ∧ grows l l'.
+Proof.
+  set (h := b_height (bctx s)). unfold stake_execute. fold h. intros H (Hg & [Hod Hof] & Hr).
+  destruct (t_type t =? TRX_STAKING).
+  { destruct (match dels l !! t_to t with Some d => Some d | None => _ end) as [d|] eqn:Ed; [|discriminate].
+    destruct (accts l !! t_from t) as [sender|] eqn:Es; [|discriminate].
+    destruct (sub_balance sender (t_amount t)) as [sender'|]; [|discriminate]. injection H as <-.
+    assert (Hm : accts_mono (accts l) (<[t_from t := sender']> (accts l))) by apply accts_mono_insert.
+    split; [split; [exact Hg|split; [|exact Hr]]|split; [exact Hm|split; auto]].
+    split; cbn.
+    - intros a d0 st Hk Hin. apply lookup_insert_Some in Hk as [[_ <-]|[_ Hk]].
+      + cbn in Hin. apply elem_of_app in Hin as [Hin|Hin].
+        * destruct (dels l !! t_to t) as [d'|] eqn:Ed'.
+          -- injection Ed as <-. apply Hm. eapply Hod; eassumption.
+          -- destruct (t_from t =? t_to t)%N; [|discriminate]. injection Ed as <-. cbn in Hin. inversion Hin.
+        * apply elem_of_list_singleton in Hin as ->. cbn. rewrite lookup_insert. eexists; reflexivity.
+      + apply Hm. eapply Hod; eassumption.
+    - intros k st Hk. apply Hm. eapply Hof; exact Hk. }
+  destruct (t_type t =? TRX_UNSTAKING).
+  { destruct (dels l !! t_to t) as [d|] eqn:Ed; [|discriminate].
+    destruct (t_payload t) as [|hs lo| | | | |]; try discriminate.
+    destruct (find_stake hs (d_stakes d)) as [s0|] eqn:Ef; [|discriminate].
+    destruct (negb (s_from s0 =? t_from t)%N); [discriminate|].
+    pose proof (find_stake_elem _ _ _ Ef) as Hs0.
+    assert (Hd1 : ∀ st, st ∈ d_stakes (del_stake d hs) → is_Some (accts l !! s_from st)).
+    { intros st Hin. unfold del_stake in Hin. rewrite Ef in Hin. cbn in Hin.
+      eapply Hod; [exact Ed|]. eapply remove_stake_elem. exact Hin. }
+    set (fr1 := <[s_hash s0 := with_refund (h + g_lazyRewardBlocks (gparams s)) s0]> (frozen l)) in H.
+    assert (Hfr1 : fr_owned (accts l) fr1).
+    { intros k st Hk. apply lookup_insert_Some in Hk as [[_ <-]|[_ Hk]]; [exact (Hod _ _ _ Ed Hs0)|eapply Hof; exact Hk]. }
+    destruct (if d_self (del_stake d hs) =? 0 then _ else _) as [d2 fr2] eqn:E2.
+    assert (H2 : (∀ st, st ∈ d_stakes d2 → is_Some (accts l !! s_from st)) ∧ fr_owned (accts l) fr2).
+    { destruct (d_self (del_stake d hs) =? 0).
+      - cbn in E2. injection E2 as <- <-. split; [cbn; intros st Hin; inversion Hin|].
+        apply freeze_all_owned; assumption.
+      - injection E2 as <- <-. split; assumption. }
+    destruct H2 as [Hd2 Hfr2].
+    assert (G : grows l l').
+    { destruct (d_total d2 =? 0); injection H as <-; (split; [apply accts_mono_refl|split; auto]). }
+    split; [|exact G]. split; [|split].
+    - destruct (d_total d2 =? 0); injection H as <-; exact Hg.
+    - destruct (d_total d2 =? 0); injection H as <-; (split; cbn; [|exact Hfr2]).
+      + intros a d0 st Hk Hin. apply lookup_delete_Some in Hk as [_ Hk]. eapply Hod; eassumption.
+      + intros a d0 st Hk Hin. apply lookup_insert_Some in Hk as [[_ <-]|[_ Hk]]; [apply Hd2; exact Hin|eapply Hod; eassumption].
+    - destruct (d_total d2 =? 0); injection H as <-; exact Hr. }
+  destruct (t_payload t) as [| |req| | | |]; try discriminate.
+  destruct (rewards l !! t_from t) as [r|] eqn:Er; [|discriminate].
+  destruct (r_height r >? h); [discriminate|].
+  unfold acct_reward in H. cbn [accts set_rewards] in H.
+  destruct (accts l !! t_from t) as [x|]; [|discriminate]. cbn [mbind option_bind] in H.
+  destruct (add_balance x req) as [x'|]; [|discriminate]. cbn [mbind option_bind] in H. injection H as <-.
+  assert (Hm : accts_mono (accts l) (<[t_from t := x']> (accts l))) by apply accts_mono_insert.
+  split; [split; [exact Hg|split]|split; [exact Hm|split; auto]].
+  - apply (owned_mono _ _ _ Hm). split; assumption.
+  - intros a r0 Hk. cbn in Hk. apply lookup_insert_Some in Hk as [[_ <-]|[_ Hk]]; [cbn; lia|eapply Hr; exact Hk].
+Qed.
+
+(* ------------------------------------------------------------------ the limiter stays sound *)
+Lemma check_limit_lim_ok sl da dt diff sl' : check_limit sl da dt diff = Ok sl' → lim_ok sl → lim_ok sl'.
+Proof.
+  unfold check_limit. intros H Hl.
+  destruct (lim_objs sl) as [objs|] eqn:Eo; [|injection H as <-; exact Hl].
+  cbv zeta in H.
+  destruct (negb (if diff <=? 0 then true else _)); [discriminate|].
+  destruct (negb (_ =? dt)); [discriminate|].
+  match type of H with (if ?c then _ else _) = _ => destruct c end; [discriminate|].
+  destruct (lim_base sl =? 0); [discriminate|].
+  match type of H with (if ?c then _ else _) = _ => destruct c end; [discriminate|].
+  match type of H with (if ?c then _ else _) = _ => destruct c end; [discriminate|].
+  injection H as <-. intros objs' _. cbn. exact (Hl objs Eo).
+Qed.
+
+Lemma stake_validate_lim_ok s1 t lim' : stake_validate s1 t = Ok lim' → lim_ok (lim s1) → lim_ok lim'.
+Proof.
+  intros H Hl. unfold stake_validate in H.
+  destruct (t_type t =? TRX_STAKING).
+  { destruct (_ <=? 0); [discriminate|]. destruct (negb _); [discriminate|].
+    destruct (amount_to_power (t_amount t)) as [txp|]; [|discriminate].
+    match type of H with match ?cs with Ok _ => _ | Err _ => _ | Panic _ => _ end = _ =>
+      destruct cs as [total|e|p] end; try discriminate.
+    destruct (wrap64 _ <=? 0); [discriminate|].
+    destruct (3 <=? _); [eapply check_limit_lim_ok; eassumption|injection H as <-; exact Hl]. }
+  destruct (t_type t =? TRX_UNSTAKING).
+  { destruct (dels (work s1) !! t_to t) as [d|]; [|discriminate].
+    destruct (t_payload t) as [|hs lo| | | | |]; try discriminate.
+    destruct (negb lo); [discriminate|].
+    destruct (find_stake hs (d_stakes d)) as [s0|]; [|discriminate].
+    destruct (negb (s_from s0 =? t_from t)%N); [discriminate|].
+    destruct (3 <=? _); [eapply check_limit_lim_ok; eassumption|injection H as <-; exact Hl]. }
+  destruct (negb (t_amount t =? 0)); [discriminate|].
+  destruct (t_payload t); try discriminate.
+  destruct (rewards (work s1) !! t_from t) as [r|]; [|discriminate].
+  destruct (r_cumulated r <? req); [discriminate|]. injection H as <-. exact Hl.
+Qed.
+
+Lemma validated_lim_ok s1 recv t lim' : validated s1 recv t = Ok lim' → lim_ok (lim s1) → lim_ok lim'.
+Proof.
+  intros H Hl. ty_case t TRX_STAKING E2.
+  { rewrite (validated_stake _ _ _ (or_introl E2)) in H. eapply stake_validate_lim_ok; eassumption. }
+  ty_case t TRX_UNSTAKING E3.
+  { rewrite (validated_stake _ _ _ (or_intror (or_introl E3))) in H. eapply stake_validate_lim_ok; eassumption. }
+  rewrite (validated_lim _ _ _ _ H E2 E3). exact Hl.
+Qed.
+
+(* ------------------------------------------------------------------ DeliverTx keeps the invariant *)
+Lemma exec_native_W s1 recv lim' s2 t l' :
+  validated s1 recv t = Ok lim' → exec_native s2 t = Ok l' → payload_consistent t → proposal_params_ok t →
+  W (b_height (bctx s2)) (work s2) → W (b_height (bctx s2)) l' ∧ grows (work s2) l'.
+Proof.
+  intros Hv H Hpc Hpp Hw. unfold exec_native in H.
+  destruct ((t_type t =? TRX_PROPOSAL) || (t_type t =? TRX_VOTING)).
+  { eapply gov_execute_W; try eassumption. intros E4. exists s1. unfold validated in Hv. rewrite E4 in Hv.
+    cbn [Z.eqb orb TRX_PROPOSAL Pos.eqb] in Hv. destruct (gov_validate s1 t); [discriminate|reflexivity]. }
+  destruct ((t_type t =? TRX_TRANSFER) || (t_type t =? TRX_SETDOC)).
+  { eapply acct_execute_W; eassumption. }
+  eapply stake_execute_W; eassumption.
+Qed.
+
+Definition same_frame (s s' : state) : Prop :=
+  committed s' = committed s ∧ gparams s' = gparams s ∧ newparams s' = newparams s ∧
+  last_height s' = last_height s ∧ b_height (bctx s') = b_height (bctx s).
+Lemma same_frame_refl s : same_frame s s.  Proof. repeat split. Qed.
+
+Lemma deliver_inv s t :
+  payload_consistent t → proposal_params_ok t →
+  W (b_height (bctx s)) (work s) → lim_ok (lim s) →
+  W (b_height (bctx s)) (work (deliver s t).1) ∧ grows (work s) (work (deliver s t).1) ∧
+  lim_ok (lim (deliver s t).1) ∧ same_frame s (deliver s t).1.
+Proof.
+  intros Hpc Hpp Hw Hl. set (h := b_height (bctx s)) in *. rewrite deliver_eq.
+  destruct (accts (work s) !! t_from t) as [sender|] eqn:Hs.
+  2:{ cbn [fst]. split; [exact Hw|]. split; [apply grows_refl|]. split; [exact Hl|apply same_frame_refl]. }
+  cbv zeta.
+  assert (Hpre : W h (work (pre s t)) ∧ grows (work s) (work (pre s t))).
+  { unfold pre. cbn [work with_work]. apply W_find_or_new. exact Hw. }
+  assert (Rpre : W h (work (pre s t)) ∧ grows (work s) (work (pre s t)) ∧ lim_ok (lim (pre s t)) ∧ same_frame s (pre s t)).
+  { destruct Hpre as [H1 H2]. split; [exact H1|]. split; [exact H2|]. split; [exact Hl|repeat split]. }
+  destruct (common_validation0 (gparams s) t); [exact Rpre|].
+  destruct (common_validation1 sender t); [exact Rpre|].
+  destruct (validated (pre s t) (receiver_of s t) t) as [lim'|ev|pv] eqn:Hv; [|exact Rpre|exact Rpre].
+  pose proof (validated_lim_ok _ _ _ _ Hv Hl) as Hl'.
+  set (s2 := with_lim (pre s t) lim').
+  assert (R2 : W h (work s2) ∧ grows (work s) (work s2) ∧ lim_ok (lim s2) ∧ same_frame s s2).
+  { destruct Hpre as [H1 H2]. split; [exact H1|]. split; [exact H2|]. split; [exact Hl'|repeat split]. }
+  unfold finish. destruct (evm_path s t).
+  - destruct (evm_execute (work s2) t) as [[l' gas]|e'|p'] eqn:Ex; [|exact R2|exact R2].
+    cbn [fst]. destruct Hpre as [H1 H2].
+    destruct (evm_execute_W h _ _ _ _ Ex H1) as [H3 H4].
+    split; [exact H3|]. split; [eapply grows_trans; eassumption|]. split; [exact Hl'|repeat split].
+  - destruct (exec_native s2 t) as [l'|e'|p'] eqn:Ex; [|exact R2|exact R2].
+    destruct Hpre as [H1 H2].
+    destruct (exec_native_W _ _ _ s2 t l' Hv Ex Hpc Hpp H1) as [H3 H4].
+    unfold post_native. destruct (accts l' !! t_from t) as [snd'|]; [|exact R2].
+    destruct (sub_balance snd' (fee_of t)) as [snd''|].
+    + cbn [fst]. destruct (W_set_acct h l' (t_from t) (add_nonce snd'') H3) as [H5 H6].
+      split; [exact H5|]. split; [eapply grows_trans; [exact H2|eapply grows_trans; eassumption]|].
+      split; [exact Hl'|repeat split].
+    + cbn [fst]. split; [exact H3|]. split; [eapply grows_trans; eassumption|]. split; [exact Hl'|repeat split].
+Qed.
+
+(* ------------------------------------------------------------------ BeginBlock keeps the invariant *)
+Lemma prop_punish_ok Q p a ratio : prop_ok Q p → prop_ok Q (prop_punish p a ratio).1.
+Proof.
+  intros (Hne & Hopts & Hmaj). unfold prop_punish.
+  destruct (p_voters p !! a) as [v|]; [|split; [exact Hne|split; assumption]].
+  destruct (cancel_vote (p_options p) v) as [o1 v1] eqn:E1.
+  pose proof (cancel_vote_ok Q (p_options p) v) as [N1 F1]. rewrite E1 in N1, F1. cbn [fst] in N1, F1.
+  cbv zeta.
+  match goal with |- context [if ?c then (delete a (p_voters p), o1) else _] => destruct c end.
+  { cbn. split; [auto|]. split; cbn; [auto|exact Hmaj]. }
+  destruct (0 <=? v_choice v).
+  - match goal with |- context [do_vote o1 ?v2 ?c] =>
+      destruct (do_vote o1 v2 c) as [o' v'] eqn:E2; pose proof (do_vote_ok Q o1 v2 c) as [N2 F2] end.
+    rewrite E2 in N2, F2. cbn [fst] in N2, F2.
+    cbn. split; [auto|]. split; cbn; [auto|exact Hmaj].
+  - cbn. split; [auto|]. split; cbn; [auto|exact Hmaj].
+Qed.
+
+(* what a step that touches proposals only has to show *)
+Lemma W_props h l l' :
+  accts l' = accts l → dels l' = dels l → frozen l' = frozen l → rewards l' = rewards l → fprops l' = fprops l →
+  (∀ k, is_Some (props l !! k) → is_Some (props l' !! k)) →
+  (∀ k p, props l' !! k = Some p → prop_ok opt_ok p) →
+  W h l → W h l' ∧ grows l l'.
+Proof.
+  intros Ea Ed Efr Er Ef Hk Hp ([Hg1 Hg2] & [Ho1 Ho2] & Hr). split; [split; [|split]|].
+  - split; [exact Hp|rewrite Ef; exact Hg2].
+  - unfold owned. rewrite Ea, Ed, Efr. split; assumption.
+  - unfold RH. rewrite Er. exact Hr.
+  - split; [rewrite Ea; apply accts_mono_refl|]. split; [exact Hk|rewrite Ef; auto].
+Qed.
+
+Lemma gov_punish_W h l ratio evi :
+  W h l → W h (gov_punish l ratio evi) ∧ grows l (gov_punish l ratio evi) ∧ accts (gov_punish l ratio evi) = accts l.
+Proof.
+  intros Hw. unfold gov_punish.
+  apply (foldl_inv _ (λ x, W h x ∧ grows l x ∧ accts x = accts l)); [|split; [exact Hw|split; [apply grows_refl|reflexivity]]].
+  intros x a _ Hx.
+  apply (foldl_inv _ (λ y, W h y ∧ grows l y ∧ accts y = accts l)); [|exact Hx].
+  intros y kp _ (Hy & Gy & Ay). destruct (props y !! kp.1) as [p|] eqn:Ep; [|split; [exact Hy|split; assumption]].
+  destruct (W_props h y (set_props y (<[kp.1 := (prop_punish p a ratio).1]> (props y)))) as [H1 H2];
+    try reflexivity; [| |exact Hy|].
+  - cbn. intros k Hk. apply lookup_insert_is_Some'. right. exact Hk.
+  - cbn. intros k q Hk. destruct Hy as ([Hg1 _] & _).
+    apply lookup_insert_Some in Hk as [[_ <-]|[_ Hk]]; [apply prop_punish_ok; eapply Hg1; exact Ep|eapply Hg1; exact Hk].
+  - split; [exact H1|]. split; [eapply grows_trans; eassumption|exact Ay].
+Qed.
+
+Lemma elem_of_map {A B} (f : A → B) l y : y ∈ map f l → ∃ x, y = f x ∧ x ∈ l.
+Proof.
+  induction l as [|x l IH]; simpl; intros H; [inversion H|].
+  apply elem_of_cons in H as [->|H]; [exists x; split; [reflexivity|left]|].
+  destruct (IH H) as (x' & E & Hin). exists x'. split; [exact E|right; exact Hin].
+Qed.
+
+Lemma slash_all_from d ratio st :
+  st ∈ d_stakes (slash_all d ratio).1 → ∃ st0, st0 ∈ d_stakes d ∧ s_from st = s_from st0.
+Proof.
+  unfold slash_all. cbn [fst d_stakes]. intros H.
+  match type of H with st ∈ foldl ?f ?slashed ?removing =>
+    assert (Hs : ∀ x, x ∈ foldl f slashed removing → x ∈ slashed) end.
+  { apply (foldl_inv _ (λ l, ∀ x, x ∈ l → x ∈ _)); [|auto].
+    intros l s0 _ Hl x Hx. apply Hl. eapply remove_stake_elem. exact Hx. }
+  apply Hs in H. apply elem_of_map in H as (st0 & E & Hin). exists st0. split; [exact Hin|].
+  rewrite E. destruct (_ <? 1); reflexivity.
+Qed.
+
+(* a step that touches delegatees and frozen stakes only *)
+Lemma W_stakes h l l' :
+  accts l' = accts l → rewards l' = rewards l → props l' = props l → fprops l' = fprops l →
+  owned (accts l) l' → W h l → W h l' ∧ grows l l'.
+Proof.
+  intros Ea Er Ep Ef Ho ([Hg1 Hg2] & _ & Hr). split; [split; [|split]|].
+  - split; [rewrite Ep; exact Hg1|rewrite Ef; exact Hg2].
+  - rewrite Ea. exact Ho.
+  - unfold RH. rewrite Er. exact Hr.
+  - split; [rewrite Ea; apply accts_mono_refl|]. rewrite Ep, Ef. split; auto.
+Qed.
+
+Lemma stake_punish_W h l ratio evi :
+  W h l → W h (stake_punish l ratio evi) ∧ grows l (stake_punish l ratio evi) ∧ accts (stake_punish l ratio evi) = accts l.
+Proof.
+  intros Hw. unfold stake_punish.
+  apply (foldl_inv _ (λ x, W h x ∧ grows l x ∧ accts x = accts l)); [|split; [exact Hw|split; [apply grows_refl|reflexivity]]].
+  intros x a _ (Hx & Gx & Ax). destruct (dels x !! a) as [d|] eqn:Ed; [|split; [exact Hx|split; assumption]].
+  destruct (W_stakes h x (set_dels x (<[a := (slash_all d ratio).1]> (dels x)))) as [H1 H2];
+    try reflexivity; [|exact Hx|].
+  - destruct Hx as (_ & [Ho1 Ho2] & _). split; [|exact Ho2]. cbn. intros b d0 st Hk Hin.
+    apply lookup_insert_Some in Hk as [[_ <-]|[_ Hk]]; [|eapply Ho1; eassumption].
+    apply slash_all_from in Hin as (st0 & Hin0 & ->). eapply Ho1; eassumption.
+  - split; [exact H1|]. split; [eapply grows_trans; eassumption|exact Ax].
+Qed.
+
+Lemma vote_step_W g old h l issued v : 0 ≤ h → W h l →
+  ∃ l' issued', vote_step g old h (Ok (l, issued)) v = Ok (l', issued') ∧ W h l' ∧ grows l l' ∧ accts l' = accts l.
+Proof.
+  intros Hh Hw. pose proof Hw as ([Hg1 Hg2] & [Ho1 Ho2] & Hr).
+  destruct (vote_step_ok g old h l issued v Hh Hr) as (l' & i' & E & Hr' & Ea & Ep & Ef & _ & Hcase).
+  exists l', i'. split; [exact E|].
+  assert (G : grows l l').
+  { split; [rewrite Ea; apply accts_mono_refl|]. rewrite Ep, Ef. split; auto. }
+  split; [|split; [exact G|exact Ea]].
+  split; [split; [rewrite Ep; exact Hg1|rewrite Ef; exact Hg2]|]. split; [|exact Hr'].
+  unfold owned. rewrite Ea. destruct Hcase as [[Ed Efr]|(_ & a & d & m2 & _ & Hd & [[Ed Efr]|[Ed Efr]])].
+  - rewrite Ed, Efr. split; assumption.
+  - rewrite Ed, Efr. split; [|exact Ho2]. intros b d0 st Hk Hin.
+    apply lookup_insert_Some in Hk as [[_ <-]|[_ Hk]]; [cbn in Hin|]; eapply Ho1; eassumption.
+  - rewrite Ed, Efr. split.
+    + intros b d0 st Hk Hin. apply lookup_delete_Some in Hk as [_ Hk]. eapply Ho1; eassumption.
+    + apply freeze_all_owned; [exact Ho2|]. intros st Hin. eapply Ho1; eassumption.
+Qed.
+
+(* the limiter BeginBlock builds: every eligible delegatee has power *)
+Definition self_le_total (l : ledgers) : Prop := ∀ a d, dels l !! a = Some d → d_self d ≤ d_total d.
+
+Lemma min_power_pos g : params_ok g → 1 ≤ min_power g.
+Proof.
+  intros Hg. unfold min_power, power_of. rewrite (params_ok_minval _ Hg). cbn [default].
+  destruct Hg as (_ & _ & _ & _ & _ & Hv & _). apply Z.div_le_lower_bound; [exact apP_pos|lia].
+Qed.
+
+Lemma sumZ_with_nonneg {A} (f : A → Z) l : (∀ x, x ∈ l → 0 ≤ f x) → 0 ≤ sumZ_with f l.
+Proof.
+  induction l as [|x l IH]; intros H; cbn; [lia|].
+  assert (0 ≤ f x) by (apply H; left).
+  assert (0 ≤ sumZ_with f l) by (apply IH; intros y Hy; apply H; right; exact Hy).
+  unfold sumZ_with in *. lia.
+Qed.
+
+Lemma limiter_reset_ok g base :
+  params_ok g → self_le_total base →
+  lim_ok (limiter_reset (sort_power (List.filter (λ d, min_power g <=? d_self d) (snd <$> sorted_items (dels base)))) g).
+Proof.
+  intros Hg Hb. set (all := sort_power _).
+  assert (Hall : ∀ d, d ∈ all → 1 ≤ d_total d).
+  { intros d Hd. unfold all, sort_power in Hd. rewrite merge_sort_Permutation in Hd.
+    apply elem_of_list_In, filter_In in Hd as [Hin Hle]. apply elem_of_list_In in Hin.
+    apply elem_of_list_fmap in Hin as ([k d'] & -> & Hin). apply sorted_items_elem in Hin. cbn.
+    apply Z.leb_le in Hle. cbn in Hle. pose proof (min_power_pos _ Hg). specialize (Hb _ _ Hin). lia. }
+  intros objs Ho. unfold limiter_reset in *. cbn [lim_objs lim_base lim_maxcnt] in *.
+  destruct Hg as (_ & _ & _ & _ & Hmax & _). split; [|exact Hmax].
+  destruct all as [|d ds]; [discriminate|].
+  destruct (Z.to_nat (g_maxValidatorCnt g)) as [|n] eqn:En; [lia|].
+  cbn [take sumZ_with foldr]. assert (1 ≤ d_total d) by (apply Hall; left).
+  assert (0 ≤ sumZ_with d_total (take n ds)).
+  { apply sumZ_with_nonneg. intros x Hx. apply elem_of_take in Hx as (i & Hi & _).
+    apply elem_of_list_lookup_2 in Hi. assert (1 ≤ d_total x) by (apply Hall; right; exact Hi). lia. }
+  unfold sumZ_with in *. lia.
+Qed.
+
+Lemma begin_block_inv s hd :
+  h_height hd = last_height s + 1 → (h_votes hd ≠ [] → committed s ≠ []) →
+  params_ok (gparams s) → heights_ok s → self_le_total (base_of s) →
+  W (b_height (bctx s)) (work s) →
+  let s' := (begin_block s hd).1 in
+  (∃ iss, (begin_block s hd).2 = Ok iss) ∧
+  W (h_height hd) (work s') ∧ grows (work s) (work s') ∧ lim_ok (lim s') ∧
+  committed s' = committed s ∧ gparams s' = gparams s ∧ newparams s' = newparams s ∧
+  last_height s' = last_height s ∧ b_height (bctx s') = h_height hd.
+Proof.
+  intros Hh Hvotes Hg (H0 & Hb & Hc) Hbase Hw. cbv zeta. unfold begin_block.
+  rewrite Hh, Z.eqb_refl. cbn [negb]. rewrite <- Hh.
+  assert (Hw0 : W (h_height hd) (work s)).
+  { destruct Hw as (A & B & C). split; [exact A|]. split; [exact B|]. intros a r Hr. apply C in Hr. lia. }
+  destruct (gov_punish_W (h_height hd) (work s) (g_slashRatio (gparams s)) (h_evidence hd) Hw0) as (W1 & G1 & A1).
+  destruct (stake_punish_W (h_height hd) _ (g_slashRatio (gparams s)) (h_evidence hd) W1) as (W2 & G2 & A2).
+  pose proof (grows_trans _ _ _ G1 G2) as G12.
+  pose proof (limiter_reset_ok (gparams s) (base_of s) Hg Hbase) as Hlim.
+  destruct (h_votes hd) as [|v vs] eqn:Ev.
+  { cbn. split; [eexists; reflexivity|]. split; [exact W2|]. split; [exact G12|]. split; [exact Hlim|]. repeat split. }
+  rewrite process_votes_eq.
+  assert (Hlen : 1 ≤ Z.of_nat (length (committed s))).
+  { destruct (committed s); [exfalso; apply Hvotes; [discriminate|reflexivity]|cbn; lia]. }
+  match goal with |- context [ledgers_at ?s1 ?n] => destruct (ledgers_at_some s1 n) as [old Eo] end.
+  { cbn [committed]. apply hgt_of_power_le; lia. }
+  rewrite Eo. cbn [gparams].
+  match goal with |- context [foldl ?f (Ok (?l, 0)) ?vs] =>
+    destruct (foldl_res_ok f (λ x, W (h_height hd) x.1 ∧ grows l x.1) vs) with (a := (l, 0))
+      as ([l3 iss] & E & W3 & G3) end.
+  - intros [l issued] v0 _ [Hl Gl]. cbn [fst] in Hl, Gl.
+    destruct (vote_step_W (gparams s) old (h_height hd) l issued v0) as (l' & i' & E & Hl' & Gl' & _); [lia|exact Hl|].
+    exists (l', i'). split; [exact E|]. cbn [fst]. split; [exact Hl'|eapply grows_trans; eassumption].
+  - cbn [fst]. split; [exact W2|apply grows_refl].
+  - rewrite E. cbn [fst snd] in *. split; [eexists; reflexivity|]. split; [exact W3|].
+    split; [eapply grows_trans; eassumption|]. split; [exact Hlim|]. repeat split.
+Qed.
+
+(* ------------------------------------------------------------------ the run invariant *)
+Inductive phase := Idle | InBlock | Ended.
+
+(* facts this file maintains by itself *)
+Definition core (s : state) : Prop :=
+  params_ok (gparams s) ∧ (∀ m, newparams s = Some m → params_ok m) ∧
+  W (b_height (bctx s)) (work s) ∧ lim_ok (lim s) ∧
+  gov_ok opt_ok (base_of s) ∧ fr_owned (accts (work s)) (frozen (base_of s)) ∧ self_le_total (base_of s).
+
+Definition phase_inv (ph : phase) (n : Z) (s : state) : Prop :=
+  core s ∧ 0 ≤ n ∧ last_height s = n ∧ Z.of_nat (length (committed s)) = n ∧
+  match ph with
+  | Idle => b_height (bctx s) = n ∧ keys_ok s
+  | InBlock => b_height (bctx s) = n + 1 ∧ keys_ok s
+  | Ended => b_height (bctx s) = n + 1
+  end.
+
+(* facts taken from the stake-bookkeeping (C11) and supply (C02) properties: bonded totals are the
+   sums of non-negative stake powers, and the supply stays below 2^63 RIGO *)
+Definition ext_ok (s : state) : Prop :=
+  supply_small (work s) ∧ totals_nonneg (work s) ∧ self_le_total (work s).
+
+Lemma core_state_ok s : core s → ext_ok s → state_ok s.
+Proof.
+  intros (Hg & _ & (_ & _ & Hr) & Hl & _) (Hs & Ht & _).
+  split; [exact Hg|]. split; [exact Hs|]. split; [exact Ht|]. split; [exact Hl|exact Hr].
+Qed.
+
+Lemma base_of_same s s' : committed s' = committed s → gparams s' = gparams s → base_of s' = base_of s.
+Proof. intros E1 E2. unfold base_of. rewrite E1, E2. reflexivity. Qed.
+Lemma base_of_commit s : base_of (commit s) = work s.
+Proof. unfold base_of, commit. cbn [committed]. rewrite last_snoc. reflexivity. Qed.
+
+Lemma keys_ok_grows s s' : base_of s' = base_of s → grows (work s) (work s') → keys_ok s → keys_ok s'.
+Proof. intros Eb (_ & Gp & Gf) [Kp Kf]. unfold keys_ok. rewrite Eb. split; auto. Qed.
+
+Lemma fr_owned_mono A A' m : accts_mono A A' → fr_owned A m → fr_owned A' m.
+Proof. intros Hm H h st Hk. apply Hm. eapply H. exact Hk. Qed.
+
+(* ------------------------------------------------------------------ genesis *)
+Definition all_empty (l : ledgers) : Prop :=
+  frozen l = ∅ ∧ rewards l = ∅ ∧ props l = ∅ ∧ fprops l = ∅.
+
+Lemma init_fold_accts (vals : list (addr * Z)) : ∀ l,
+  let l' := foldl (λ l v, (find_or_new l v.1).1) l vals in
+  (∀ v, v ∈ vals → is_Some (accts l' !! v.1)) ∧ accts_mono (accts l) (accts l') ∧
+  dels l' = dels l ∧ (all_empty l → all_empty l').
+Proof.
+  induction vals as [|v vals IH]; intros l; cbn [foldl].
+  { split; [intros v Hv; inversion Hv|]. split; [apply accts_mono_refl|]. split; [reflexivity|auto]. }
+  destruct (IH (find_or_new l v.1).1) as (H1 & H2 & H3 & H4). cbv zeta in *.
+  assert (Hm : accts_mono (accts l) (accts (find_or_new l v.1).1)).
+  { unfold find_or_new. destruct (accts l !! v.1); cbn; [apply accts_mono_refl|apply accts_mono_insert]. }
+  split; [|split; [eapply accts_mono_trans; eassumption|split]].
+  - intros v' Hv'. apply elem_of_cons in Hv' as [->|Hv']; [|apply H1; exact Hv'].
+    apply H2. rewrite find_or_new_lookup. eexists; reflexivity.
+  - rewrite H3. apply find_or_new_dels.
+  - intros He. apply H4. unfold find_or_new. destruct (accts l !! v.1); exact He.
+Qed.
+
+Lemma init_chain_inv g : params_ok (gen_params g) → phase_inv Idle 0 (init_chain g).
+Proof.
+  intros Hg. unfold init_chain.
+  set (l1 := foldl (λ l h, set_acct l h.1 _) (empty_ledgers (gen_params g)) (gen_holders g)).
+  assert (H1 : dels l1 = ∅ ∧ all_empty l1).
+  { apply (foldl_inv _ (λ l, dels l = ∅ ∧ all_empty l)); [|repeat split].
+    intros l h _ Hl. exact Hl. }
+  destruct (init_fold_accts (gen_validators g) l1) as (A2 & _ & D2 & E2). cbv zeta in *.
+  set (l2 := foldl (λ l v, (find_or_new l v.1).1) l1 (gen_validators g)) in *.
+  destruct H1 as [D1 E1]. specialize (E2 E1). rewrite D1 in D2.
+  set (l3 := foldl _ l2 (gen_validators g)).
+  assert (H3 : accts l3 = accts l2 ∧ all_empty l3 ∧
+               ∀ a d st, dels l3 !! a = Some d → st ∈ d_stakes d → ∃ v, v ∈ gen_validators g ∧ s_from st = v.1).
+  { apply (foldl_inv _ (λ l, accts l = accts l2 ∧ all_empty l ∧
+             ∀ a d st, dels l !! a = Some d → st ∈ d_stakes d → ∃ v, v ∈ gen_validators g ∧ s_from st = v.1)).
+    - intros l v Hv (Ha & He & Hd). split; [exact Ha|]. split; [exact He|]. cbn.
+      intros a d st Hk Hin. apply lookup_insert_Some in Hk as [[_ <-]|[_ Hk]]; [|eapply Hd; eassumption].
+      cbn in Hin. apply elem_of_list_singleton in Hin as ->. exists v. split; [exact Hv|reflexivity].
+    - split; [reflexivity|]. split; [exact E2|]. intros a d st Hk. rewrite D2, lookup_empty in Hk. discriminate. }
+  destruct H3 as (A3 & (F3 & R3 & P3 & FP3) & S3).
+  split; [|cbn; repeat split; try lia; intros k [x Hx]; cbn in Hx; rewrite lookup_empty in Hx; discriminate].
+  split; [exact Hg|]. split; [cbn; discriminate|]. cbn [work bctx b_height lim base_of committed last default gparams].
+  split; [|split; [intros objs Ho; discriminate|]].
+  - split; [split; intros k p Hk; [rewrite P3 in Hk|rewrite FP3 in Hk]; rewrite lookup_empty in Hk; discriminate|].
+    split; [split|].
+    + intros a d st Hk Hin. destruct (S3 a d st Hk Hin) as (v & Hv & ->). rewrite A3. apply A2. exact Hv.
+    + intros h st Hk. rewrite F3, lookup_empty in Hk. discriminate.
+    + intros a r Hk. rewrite R3, lookup_empty in Hk. discriminate.
+  - split; [split; intros k p Hk; cbn in Hk; rewrite lookup_empty in Hk; discriminate|].
+    split; [intros h st Hk; cbn in Hk; rewrite lookup_empty in Hk; discriminate|].
+    intros a d Hk. cbn in Hk. rewrite lookup_empty in Hk. discriminate.
+Qed.
+
+(* ------------------------------------------------------------------ runs *)
+Definition tx_ok (t : tx) : Prop := tx_wf t ∧ payload_kind_ok t ∧ payload_consistent t ∧ proposal_params_ok t.
+
+(* Begin, Deliver*, End, Commit; block n+1 follows block n; the first block carries no votes *)
+Fixpoint bracketed (ph : phase) (n : Z) (ops : list sop) : Prop :=
+  match ops with
+  | [] => True
+  | o :: r =>
+      match ph, o with
+      | Idle, SBegin hd => h_height hd = n + 1 ∧ (h_votes hd ≠ [] → 1 ≤ n) ∧ bracketed InBlock n r
+      | InBlock, SDeliver t => tx_ok t ∧ bracketed InBlock n r
+      | InBlock, SEnd => bracketed Ended n r
+      | Ended, SCommit => bracketed Idle (n + 1) r
+      | _, _ => False
+      end
+  end.
+
+Fixpoint ext_along (s : state) (ops : list sop) : Prop :=
+  ext_ok s ∧ match ops with [] => True | o :: r => ext_along (sstep s o) r end.
+
+(* BeginBlock and EndBlock succeed (any error there makes node/app.go panic); DeliverTx answers *)
+Definition step_answers (s : state) (o : sop) : Prop :=
+  match o with
+  | SBegin hd => ∃ x, (begin_block s hd).2 = Ok x
+  | SDeliver t => ∀ p, (deliver s t).2 ≠ Panic p
+  | SEnd => ∃ ups, (end_block s).2 = Ok ups
+  | SCommit => True
+  end.
+Fixpoint run_answers (s : state) (ops : list sop) : Prop :=
+  match ops with [] => True | o :: r => step_answers s o ∧ run_answers (sstep s o) r end.
+
+(* the phase and block count after one operation of a well-bracketed run *)
+Definition next_phase (ph : phase) (n : Z) (o : sop) : phase * Z :=
+  match ph, o with
+  | Idle, SBegin _ => (InBlock, n)
+  | InBlock, SDeliver _ => (InBlock, n)
+  | InBlock, SEnd => (Ended, n)
+  | Ended, SCommit => (Idle, n + 1)
+  | _, _ => (ph, n)
+  end.
+Fixpoint end_phase (ph : phase) (n : Z) (ops : list sop) : phase * Z :=
+  match ops with [] => (ph, n) | o :: r => end_phase (next_phase ph n o).1 (next_phase ph n o).2 r end.
+
+Lemma step_inv ph n s o r :
+  phase_inv ph n s → bracketed ph n (o :: r) → ext_ok s →
+  step_answers s o ∧ phase_inv (next_phase ph n o).1 (next_phase ph n o).2 (sstep s o) ∧
+  bracketed (next_phase ph n o).1 (next_phase ph n o).2 r.
+Proof.
+  intros (Hcore & Hn & Hlast & Hlen & Hph) Hbr Hext.
+  pose proof Hcore as (Hg & Hnp & Hw & Hl & Hgb & Hfb & Hsb).
+  destruct ph, o; cbn [bracketed] in Hbr; try contradiction.
+  - (* BeginBlock *)
+    destruct Hph as [Hbh Hk]. destruct Hbr as (Hh & Hv & Hbr).
+    destruct (begin_block_inv s h) as ([iss Hok] & W' & G' & L' & C' & GP' & NP' & LH' & BH'); try assumption.
+    + lia.
+    + intros Hvs Hc. specialize (Hv Hvs). rewrite Hc in Hlen. cbn in Hlen. lia.
+    + split; [lia|]. split; lia.
+    + cbn [step_answers sstep]. split; [exists iss; exact Hok|]. cbn [next_phase fst snd].
+      split; [|exact Hbr]. pose proof (base_of_same _ _ C' GP') as Eb.
+      split; [|split; [exact Hn|split; [lia|split; [rewrite C'; exact Hlen|split; [lia|eapply keys_ok_grows; eassumption]]]]].
+      split; [rewrite GP'; exact Hg|]. split; [rewrite NP'; exact Hnp|]. split; [rewrite BH'; exact W'|].
+      split; [exact L'|]. rewrite Eb. split; [exact Hgb|]. split; [|exact Hsb].
+      eapply fr_owned_mono; [exact (proj1 G')|exact Hfb].
+  - (* DeliverTx *)
+    destruct Hph as [Hbh Hk]. destruct Hbr as ((Hwf & Hkind & Hpc & Hpp) & Hbr).
+    cbn [step_answers sstep]. split.
+    { intros p Hp. destruct (deliver s t) as [s' res] eqn:E. cbn in Hp. subst res.
+      eapply (deliver_never_panics s t (core_state_ok _ Hcore Hext) Hwf Hkind). exact E. }
+    destruct (deliver_inv s t Hpc Hpp Hw Hl) as (W' & G' & L' & (C' & GP' & NP' & LH' & BH')).
+    cbn [next_phase fst snd]. split; [|exact Hbr]. pose proof (base_of_same _ _ C' GP') as Eb.
+    split; [|split; [exact Hn|split; [lia|split; [rewrite C'; exact Hlen|split; [lia|eapply keys_ok_grows; eassumption]]]]].
+    split; [rewrite GP'; exact Hg|]. split; [rewrite NP'; exact Hnp|]. split; [rewrite BH'; exact W'|].
+    split; [exact L'|]. rewrite Eb. split; [exact Hgb|]. split; [|exact Hsb].
+    eapply fr_owned_mono; [exact (proj1 G')|exact Hfb].
+  - (* EndBlock *)
+    destruct Hph as [Hbh Hk].
+    destruct (end_block_ok opt_ok params_ok s) as (s' & ups & E & HP & Hnp'); try assumption.
+    + destruct Hg as (_ & _ & _ & _ & Hm & _). lia.
+    + intros newp HQ. apply HQ. exact Hg.
+    + cbn [step_answers sstep]. rewrite E. cbn [fst snd]. split; [exists ups; reflexivity|].
+      cbn [next_phase fst snd]. split; [|exact Hbr].
+      destruct HP as (C' & GP' & _ & L' & B' & LH' & A' & D' & R' & F' & P' & FP').
+      pose proof (base_of_same _ _ C' GP') as Eb.
+      split; [|split; [exact Hn|split; [lia|split; [rewrite C'; exact Hlen|rewrite B'; exact Hbh]]]].
+      split; [rewrite GP'; exact Hg|]. split; [exact Hnp'|]. rewrite B', L', Eb.
+      destruct Hw as ([Hg1 Hg2] & [Ho1 Ho2] & Hr).
+      split; [|split; [exact Hl|split; [exact Hgb|split; [eapply fr_owned_mono; eassumption|exact Hsb]]]].
+      split; [split|split; [split|]].
+      * intros k p Hk'. eapply Hg1. apply P'. exact Hk'.
+      * intros k p Hk'. destruct (FP' k p Hk') as [Hk''|Hk'']; [eapply Hg2; exact Hk''|exact Hk''].
+      * rewrite D'. intros a d st Hd Hin. apply A'. eapply Ho1; eassumption.
+      * intros k st Hk'. apply A'. eapply Ho2. apply F'. exact Hk'.
+      * unfold RH. rewrite R'. exact Hr.
+  - (* Commit *)
+    cbn [step_answers sstep]. split; [exact I|]. cbn [next_phase fst snd]. split; [|exact Hbr].
+    destruct Hw as (Hgw & [Ho1 Ho2] & Hr). destruct Hext as (_ & _ & Hsl).
+    split; [|split; [lia|split; [cbn; lia|split; [cbn; rewrite app_length; cbn; lia|split; [cbn; lia|]]]]].
+    + unfold core. rewrite base_of_commit. cbn [gparams newparams work bctx lim commit].
+      split; [destruct (newparams s) as [m|]; cbn; [apply Hnp; reflexivity|exact Hg]|].
+      split; [discriminate|]. split; [split; [exact Hgw|split; [split; assumption|exact Hr]]|].
+      split; [exact Hl|]. split; [exact Hgw|]. split; [exact Ho2|exact Hsl].
+    + unfold keys_ok. rewrite base_of_commit. cbn [work commit]. split; auto.
+Qed.
+
+Lemma run_inv ops : ∀ ph n s,
+  phase_inv ph n s → bracketed ph n ops → ext_along s ops → run_answers s ops.
+Proof.
+  induction ops as [|o r IH]; intros ph n s Hinv Hbr Hext; [exact I|].
+  destruct Hext as [He Hext]. destruct (step_inv ph n s o r Hinv Hbr He) as (Ha & Hinv' & Hbr').
+  split; [exact Ha|]. eapply IH; eassumption.
+Qed.
+
+(* the invariant holds after the run as well *)
+Lemma run_reaches ops : ∀ ph n s,
+  phase_inv ph n s → bracketed ph n ops → ext_along s ops →
+  phase_inv (end_phase ph n ops).1 (end_phase ph n ops).2 (srun s ops).
+Proof.
+  induction ops as [|o r IH]; intros ph n s Hinv Hbr Hext; [exact Hinv|].
+  destruct Hext as [He Hext]. destruct (step_inv ph n s o r Hinv Hbr He) as (_ & Hinv' & Hbr').
+  cbn [end_phase srun foldl]. apply IH; assumption.
+Qed.
+
+(* N3.  The hypothesis [ext_along] is the part owned by other properties: at every point of the
+   run the supply is below 2^63 RIGO ([supply_small]) and every delegatee's total power is
+   non-negative and not below its self power (C11 bookkeeping with non-negative stake powers).
+   Everything else [state_ok], [keys_ok], the proposal and ownership invariants is established
+   here from [params_ok (gen_params g)] and the hypotheses on the operations. *)
+Theorem run_never_panics g ops :
+  params_ok (gen_params g) → bracketed Idle 0 ops → ext_along (init_chain g) ops →
+  run_answers (init_chain g) ops.
+Proof. intros Hg Hbr Hext. eapply run_inv; [apply init_chain_inv; exact Hg|exact Hbr|exact Hext]. Qed.
+Print Assumptions run_never_panics.
+
+(* [state_ok] and the hypotheses of the two block theorems are invariants of such runs *)
+Theorem run_invariant g ops :
+  params_ok (gen_params g) → bracketed Idle 0 ops → ext_along (init_chain g) ops →
+  let s := srun (init_chain g) ops in
+  phase_inv (end_phase Idle 0 ops).1 (end_phase Idle 0 ops).2 s ∧ (ext_ok s → state_ok s) ∧
+  heights_ok s ∧ gov_ok (λ _, True) (base_of s) ∧ frozen_owned (accts (work s)) (base_of s) ∧
+  ((end_phase Idle 0 ops).1 ≠ Ended → keys_ok s).
+Proof.
+  intros Hg Hbr Hext s.
+  pose proof (run_reaches ops Idle 0 _ (init_chain_inv g Hg) Hbr Hext) as Hinv. fold s in Hinv.
+  split; [exact Hinv|]. destruct Hinv as (Hcore & Hn & Hlast & Hlen & Hph).
+  split; [apply core_state_ok; exact Hcore|].
+  destruct Hcore as (_ & _ & _ & _ & [Hg1 Hg2] & Hfo & _).
+  split; [|split; [|split; [exact Hfo|]]].
+  - split; [lia|]. split; [|lia]. destruct (end_phase Idle 0 ops).1; [destruct Hph as [-> _]|destruct Hph as [-> _]|rewrite Hph]; lia.
+  - split; intros k p Hk; [apply Hg1 in Hk|apply Hg2 in Hk]; destruct Hk as (A & B & C);
+      (split; [exact A|split; [intros Ht; specialize (B Ht); eapply Forall_impl; [exact B|]|intros Ht o Ho; specialize (C Ht o Ho)]]).
+    + intros o (np & E & _). exists np. split; [exact E|exact I].
+    + destruct C as (np & E & _). exists np. split; [exact E|exact I].
+    + intros o (np & E & _). exists np. split; [exact E|exact I].
+    + destruct C as (np & E & _). exists np. split; [exact E|exact I].
+  - intros Hne. destruct (end_phase Idle 0 ops).1; [exact (proj2 Hph)|exact (proj2 Hph)|contradiction].
+Qed.
+Print Assumptions run_invariant.
+
+(* no operation of such a run returns [Panic] *)
+Definition step_panics (s : state) (o : sop) : Prop :=
+  match o with
+  | SBegin hd => ∃ p, (begin_block s hd).2 = Panic p
+  | SDeliver t => ∃ p, (deliver s t).2 = Panic p
+  | SEnd => ∃ p, (end_block s).2 = Panic p
+  | SCommit => False
+  end.
+Corollary run_no_step_panics g ops pre o post :
+  params_ok (gen_params g) → bracketed Idle 0 ops → ext_along (init_chain g) ops →
+  ops = pre ++ o :: post → ¬ step_panics (srun (init_chain g) pre) o.
+Proof.
+  intros Hg Hbr Hext ->. pose proof (run_never_panics g _ Hg Hbr Hext) as H. clear Hbr Hext Hg.
+  revert H. generalize (init_chain g) as s. induction pre as [|x pre IH]; intros s H.
+  - cbn in H. destruct H as [Ha _]. destruct o; cbn in *.
+    + intros [p Hp]. destruct Ha as [x Hx]. congruence.
+    + intros [p Hp]. eapply Ha. exact Hp.
+    + intros [p Hp]. destruct Ha as [x Hx]. congruence.
+    + auto.
+  - cbn in H. destruct H as [_ H]. cbn [srun foldl]. apply IH. exact H.
+Qed.
+Print Assumptions run_no_step_panics.
+
+(* ------------------------------------------------------------------ [ext_ok] in the shared vocabulary *)
+(* the hypothesis of N3 follows from the stake bookkeeping of C11 ([delegatee_ok]), the machine
+   ranges ([ranges_ok]) and a total supply below 2^63 RIGO (C02's quantity [supply]) *)
+Lemma sum_power_app' a b : sum_power (a ++ b) = sum_power a + sum_power b.
+Proof. induction a as [|x a IH]; cbn; [reflexivity|]. unfold sum_power in *. cbn. lia. Qed.
+Lemma sum_power_nonneg l : (∀ st, st ∈ l → 0 ≤ s_power st) → 0 ≤ sum_power l.
+Proof.
+  induction l as [|x l IH]; intros H; cbn; [lia|].
+  assert (0 ≤ s_power x) by (apply H; left).
+  assert (0 ≤ sum_power l) by (apply IH; intros y Hy; apply H; right; exact Hy).
+  unfold sum_power in *. lia.
+Qed.
+Lemma sum_power_of_bounds a l : (∀ st, st ∈ l → 0 ≤ s_power st) → 0 ≤ sum_power_of a l ≤ sum_power l.
+Proof.
+  induction l as [|x l IH]; intros H; cbn; [lia|].
+  assert (0 ≤ s_power x) by (apply H; left).
+  assert (0 ≤ sum_power_of a l ≤ sum_power l) by (apply IH; intros y Hy; apply H; right; exact Hy).
+  unfold sum_power, sum_power_of in *. destruct (s_from x =? a)%N; lia.
+Qed.
+
+Lemma concat_elem {A} (f : A → list stake) (L : list A) x st : x ∈ L → st ∈ f x → st ∈ concat (f <$> L).
+Proof.
+  induction L as [|y L IH]; intros Hx Hst; [inversion Hx|]. cbn [fmap list_fmap concat]. apply elem_of_app.
+  apply elem_of_cons in Hx as [->|Hx]; [left; exact Hst|right; apply IH; assumption].
+Qed.
+Lemma sum_concat_ge {A} (f : A → list stake) (L : list A) x :
+  x ∈ L → (∀ st, st ∈ concat (f <$> L) → 0 ≤ s_power st) → sum_power (f x) ≤ sum_power (concat (f <$> L)).
+Proof.
+  induction L as [|y L IH]; intros Hx Hn; [inversion Hx|]. cbn [fmap list_fmap concat] in *.
+  rewrite sum_power_app'.
+  assert (H0 : 0 ≤ sum_power (f y)) by (apply sum_power_nonneg; intros st Hst; apply Hn, elem_of_app; left; exact Hst).
+  assert (H1 : 0 ≤ sum_power (concat (f <$> L))) by (apply sum_power_nonneg; intros st Hst; apply Hn, elem_of_app; right; exact Hst).
+  apply elem_of_cons in Hx as [->|Hx]; [lia|].
+  assert (sum_power (f x) ≤ sum_power (concat (f <$> L))); [|lia].
+  apply IH; [exact Hx|]. intros st Hst. apply Hn, elem_of_app. right. exact Hst.
+Qed.
+
+Lemma total_balance_ge l :
+  (∀ a x, accts l !! a = Some x → 0 ≤ a_bal x) →
+  0 ≤ total_balance l ∧ ∀ a x, accts l !! a = Some x → a_bal x ≤ total_balance l.
+Proof.
+  unfold total_balance. generalize (accts l). intros m. induction m as [|i x m Hi IH] using map_ind; intros Hn.
+  { rewrite map_fold_empty. split; [lia|]. intros a x Hx. rewrite lookup_empty in Hx. discriminate. }
+  rewrite map_fold_insert_L; [|intros; lia|exact Hi].
+  destruct IH as [IH1 IH2].
+  { intros a y Hy. apply (Hn a). rewrite lookup_insert_ne; [exact Hy|]. intros ->. congruence. }
+  assert (0 ≤ a_bal x) by (apply (Hn i); apply lookup_insert).
+  cbv beta in *. split; [lia|]. intros a y Hy. apply lookup_insert_Some in Hy as [[_ <-]|[_ Hy]]; [lia|].
+  specialize (IH2 _ _ Hy). lia.
+Qed.
+
+Lemma ext_ok_from_C02_C11 s :
+  (∀ a d, dels (work s) !! a = Some d → delegatee_ok a d) → ranges_ok (work s) →
+  supply (work s) < two63 * amountPerPower → ext_ok s.
+Proof.
+  intros Hd (Hra & Hrs & _) Hsup. set (l := work s) in *. pose proof apP_pos as Hp.
+  assert (Hb : ∀ st, st ∈ bonded_stakes l → 0 ≤ s_power st).
+  { intros st Hst. apply (Hrs st), elem_of_app. left. exact Hst. }
+  assert (Hf : 0 ≤ frozen_power l).
+  { apply sum_power_nonneg. intros st Hst. apply (Hrs st), elem_of_app. right. exact Hst. }
+  destruct (total_balance_ge l) as [HT0 HT]; [intros a x Hx; apply Hra in Hx; lia|].
+  assert (HD : ∀ a d, dels l !! a = Some d → 0 ≤ d_self d ≤ d_total d ∧ d_total d ≤ bonded_power l).
+  { intros a d Had. destruct (Hd a d Had) as (_ & Et & Es & _).
+    assert (Hin : (a, d) ∈ map_to_list (dels l)) by (apply elem_of_map_to_list; exact Had).
+    assert (Hn : ∀ st, st ∈ d_stakes d → 0 ≤ s_power st).
+    { intros st Hst. apply Hb. exact (concat_elem (λ kv : addr * delegatee, d_stakes kv.2) _ (a, d) st Hin Hst). }
+    pose proof (sum_power_of_bounds a _ Hn) as Hsb.
+    pose proof (sum_concat_ge (λ kv : addr * delegatee, d_stakes kv.2) _ (a, d) Hin Hb) as Hge. cbv beta in Hge. cbn [snd] in Hge.
+    unfold bonded_power, bonded_stakes. lia. }
+  assert (HB : 0 ≤ bonded_power l) by (apply sum_power_nonneg; exact Hb).
+  unfold supply in Hsup. fold l in Hsup.
+  split; [split|split].
+  - intros a x Hx. specialize (HT _ _ Hx). nia.
+  - intros a d b x Had Hx. specialize (HT _ _ Hx). destruct (HD _ _ Had) as [_ Hle]. nia.
+  - intros a d Had. destruct (HD _ _ Had) as [H1 _]. lia.
+  - intros a d Had. destruct (HD _ _ Had) as [H1 _]. lia.
+Qed.
+Print Assumptions ext_ok_from_C02_C11.
+
+Lemma ext_along_prefixes ops : ∀ s,
+  (∀ pre post, ops = pre ++ post → ext_ok (srun s pre)) → ext_along s ops.
+Proof.
+  induction ops as [|o r IH]; intros s H.
+  - split; [exact (H [] [] eq_refl)|exact I].
+  - split; [exact (H [] (o :: r) eq_refl)|]. apply IH. intros pre post ->.
+    exact (H (o :: pre) post eq_refl).
+Qed.
+
+(* N3 with the external hypothesis spelled out in the shared vocabulary: at every point of the
+   run the delegatees are consistent (C11), the machine ranges hold, and the supply (C02) is
+   below 2^63 RIGO *)
+Corollary run_never_panics_C02_C11 g ops :
+  params_ok (gen_params g) → bracketed Idle 0 ops →
+  (∀ pre post, ops = pre ++ post →
+     let l := work (srun (init_chain g) pre) in
+     (∀ a d, dels l !! a = Some d → delegatee_ok a d) ∧ ranges_ok l ∧ supply l < two63 * amountPerPower) →
+  run_answers (init_chain g) ops.
+Proof.
+  intros Hg Hbr H. apply run_never_panics; [exact Hg|exact Hbr|].
+  apply ext_along_prefixes. intros pre post E. destruct (H pre post E) as (H1 & H2 & H3).
+  apply ext_ok_from_C02_C11; assumption.
+Qed.
+Print Assumptions run_never_panics_C02_C11.
+
+(* ------------------------------------------------------------------ a checker for [ext_along] *)
+Definition ext_okb (s : state) : bool :=
+  let A := map_to_list (accts (work s)) in
+  forallb (λ kx : addr * account, a_bal kx.2 <? two63 * amountPerPower) A &&
+  forallb (λ kd : addr * delegatee,
+             (0 <=? d_total kd.2) && (d_self kd.2 <=? d_total kd.2) &&
+             forallb (λ kx : addr * account, d_total kd.2 * amountPerPower + a_bal kx.2 <? two63 * amountPerPower) A)
+          (map_to_list (dels (work s))).
+Fixpoint ext_alongb (s : state) (ops : list sop) : bool :=
+  ext_okb s && match ops with [] => true | o :: r => ext_alongb (sstep s o) r end.
+
+Lemma ext_okb_sound s : ext_okb s = true → ext_ok s.
+Proof.
+  unfold ext_okb. intros H. apply andb_true_iff in H as [HA HD].
+  rewrite forallb_forall in HA, HD.
+  assert (HD' : ∀ a d, dels (work s) !! a = Some d →
+            0 ≤ d_total d ∧ d_self d ≤ d_total d ∧
+            ∀ b x, accts (work s) !! b = Some x → d_total d * amountPerPower + a_bal x < two63 * amountPerPower).
+  { intros a d Hd.
+    assert (Hin : In (a, d) (map_to_list (dels (work s)))).
+    { apply elem_of_list_In, elem_of_map_to_list. exact Hd. }
+    specialize (HD _ Hin). cbn in HD. apply andb_true_iff in HD as [H1 H2].
+    apply andb_true_iff in H1 as [H0 H1]. apply Z.leb_le in H0, H1. split; [exact H0|]. split; [exact H1|].
+    intros b x Hx. rewrite forallb_forall in H2. specialize (H2 (b, x)). cbn in H2. apply Z.ltb_lt. apply H2.
+    apply elem_of_list_In, elem_of_map_to_list. exact Hx. }
+  split; [split|split].
+  - intros a x Hx. specialize (HA (a, x)). cbn in HA. apply Z.ltb_lt. apply HA.
+    apply elem_of_list_In, elem_of_map_to_list. exact Hx.
+  - intros a d b x Hd Hx. destruct (HD' a d Hd) as (_ & _ & H). eapply H. exact Hx.
+  - intros a d Hd. destruct (HD' a d Hd) as (H & _). exact H.
+  - intros a d Hd. destruct (HD' a d Hd) as (_ & H & _). exact H.
+Qed.
+
+Lemma ext_alongb_sound ops : ∀ s, ext_alongb s ops = true → ext_along s ops.
+Proof.
+  induction ops as [|o r IH]; intros s H; cbn in H; apply andb_true_iff in H as [H1 H2].
+  - split; [apply ext_okb_sound; exact H1|exact I].
+  - split; [apply ext_okb_sound; exact H1|apply IH; exact H2].
+Qed.
+
+(* ------------------------------------------------------------------ N3 on a concrete chain *)
+Definition p_zero : params := {|
+  g_version := 0; g_maxValidatorCnt := 0; g_minValidatorStake := 0; g_minDelegatorStake := 0;
+  g_rewardPerPower := 0; g_lazyRewardBlocks := 0; g_lazyApplyingBlocks := 0; g_gasPrice := 0;
+  g_minTrxGas := 0; g_maxTrxGas := 0; g_maxBlockGas := 0; g_minVotingPeriodBlocks := 0;
+  g_maxVotingPeriodBlocks := 0; g_minSelfStakeRatio := 0; g_maxUpdatableStakeRatio := 0;
+  g_maxIndividualStakeRatio := 0; g_slashRatio := 0; g_signedBlocksWindow := 0; g_minSignedBlocks := 0 |}.
+(* a parameter document that sets slashRatio to 30 and maxValidatorCnt to 10 *)
+Definition opt_slash : params := {|
+  g_version := 0; g_maxValidatorCnt := 10; g_minValidatorStake := 0; g_minDelegatorStake := 0;
+  g_rewardPerPower := 0; g_lazyRewardBlocks := 0; g_lazyApplyingBlocks := 0; g_gasPrice := 0;
+  g_minTrxGas := 0; g_maxTrxGas := 0; g_maxBlockGas := 0; g_minVotingPeriodBlocks := 0;
+  g_maxVotingPeriodBlocks := 0; g_minSelfStakeRatio := 0; g_maxUpdatableStakeRatio := 0;
+  g_maxIndividualStakeRatio := 0; g_slashRatio := 30; g_signedBlocksWindow := 0; g_minSignedBlocks := 0 |}.
+
+Lemma opt_ok_zero : opt_ok p_zero.
+Proof. intros cur H. destruct cur. exact H. Qed.
+Lemma opt_ok_slash : opt_ok opt_slash.
+Proof.
+  intros cur H. destruct cur. unfold params_ok in *. cbn in *. unfold pick. cbn.
+  destruct H as (H1 & H2 & H3 & H4 & H5 & H6 & H7 & H8 & H9 & H10 & H11).
+  repeat split; try lia; try tauto.
+Qed.
+
+Definition pr1 : params := {|
+  g_version := 1; g_maxValidatorCnt := 21; g_minValidatorStake := 10 * amountPerPower;
+  g_minDelegatorStake := 0; g_rewardPerPower := 1000; g_lazyRewardBlocks := 10; g_lazyApplyingBlocks := 1;
+  g_gasPrice := 10; g_minTrxGas := 10; g_maxTrxGas := 1000000; g_maxBlockGas := 10000000;
+  g_minVotingPeriodBlocks := 1; g_maxVotingPeriodBlocks := 100; g_minSelfStakeRatio := 50;
+  g_maxUpdatableStakeRatio := 30; g_maxIndividualStakeRatio := 100; g_slashRatio := 50;
+  g_signedBlocksWindow := 100; g_minSignedBlocks := 10 |}.
+Lemma pr1_ok : params_ok pr1.  Proof. zc. Qed.
+
+Definition gen4 : genesis := {|
+  gen_params := pr1;
+  gen_holders := [(1%N, 1000 * amountPerPower); (2%N, 500 * amountPerPower); (3%N, 500 * amountPerPower)];
+  gen_validators := [(1%N, 100); (2%N, 100); (3%N, 100)] |}.
+
+Definition prop_tx (o : option params) : tx :=
+  mk_tx TRX_PROPOSAL 1%N 0%N 0 10 100 0 (PProposal 4 1 6 PROPOSAL_GOVPARAMS [(1%N, o)] true).
+Definition vote_tx (from : addr) (nonce : Z) : tx :=
+  mk_tx TRX_VOTING from 0%N 0 10 100 nonce (PVoting 77%N 0).
+
+(* blocks 1-2: empty; 3: rewards, a proposal, a delegation, a self-stake; 4: two votes, an
+   unstaking; 5: idle; 6: the proposal is frozen; 7: it is applied *)
+Definition run_a (o : option params) : list sop :=
+  [SBegin (hdr 1); SEnd; SCommit; SBegin (hdr 2); SEnd; SCommit;
+   SBegin hdr3; SDeliver (prop_tx o); SDeliver (stake_tx 2%N 1%N (20 * amountPerPower) 0 60%N);
+   SDeliver (stake_tx 3%N 3%N (5 * amountPerPower) 0 61%N); SEnd; SCommit;
+   SBegin (hdr 4); SDeliver (vote_tx 1%N 1); SDeliver (vote_tx 2%N 1);
+   SDeliver (mk_tx TRX_UNSTAKING 2%N 1%N 0 10 100 2 (PUnstake 60%N true)); SEnd; SCommit;
+   SBegin (hdr 5); SEnd; SCommit].
+Definition run_b : list sop := [SBegin (hdr 6); SEnd; SCommit].
+Definition run_c : list sop := [SBegin (hdr 7); SEnd; SCommit; SBegin (hdr 8)].
+Definition run_ex : list sop := run_a (Some opt_slash) ++ run_b ++ run_c.
+
+Definition all_ok (s : state) (ops : list sop) : bool :=
+  (fix go s ops := match ops with [] => true | o :: r =>
+     match o with
+     | SDeliver t => match (deliver s t).2 with Ok _ => true | _ => false end
+     | _ => sstep_ok s o end && go (sstep s o) r end) s ops.
+
+Lemma tx_ok_plain t :
+  tx_wf t → t_type t ≠ TRX_UNSTAKING → (∀ a b c d e f, t_payload t ≠ PProposal a b c d e f) → tx_ok t.
+Proof.
+  intros Hwf Hty Hp. split; [exact Hwf|]. split; [intros E; contradiction|].
+  unfold payload_consistent, proposal_params_ok. destruct (t_payload t); try (split; exact I).
+  exfalso. eapply Hp. reflexivity.
+Qed.
+
+Lemma tx_ok_prop : tx_ok (prop_tx (Some opt_slash)).
+Proof.
+  split; [zc|]. split; [intros E; vm_compute in E; discriminate|].
+  unfold payload_consistent, proposal_params_ok. cbn. split.
+  - intros _. repeat constructor. eexists; reflexivity.
+  - constructor; [|constructor]. intros np' E. cbn in E. injection E as <-. exact opt_ok_slash.
+Qed.
+
+Ltac solve_bracketed :=
+  unfold run_a, run_b, run_c; cbn [app bracketed];
+  repeat match goal with
+  | |- _ ∧ _ => split
+  | |- tx_ok (prop_tx _) => exact tx_ok_prop
+  | |- tx_ok (mk_tx TRX_UNSTAKING _ _ _ _ _ _ _) =>
+      split; [zc|split; [intros _; eexists _, _; reflexivity|split; exact I]]
+  | |- tx_ok _ => apply tx_ok_plain; [zc|discriminate|discriminate]
+  | |- _ = _ => reflexivity
+  | |- _ → _ => let H := fresh in intros H; first [lia|exfalso; apply H; reflexivity]
+  | |- True => exact I
+  end.
+
+Example run_never_panics_ex :
+  params_ok (gen_params gen4) ∧ bracketed Idle 0 run_ex ∧ ext_along (init_chain gen4) run_ex ∧
+  run_answers (init_chain gen4) run_ex ∧
+  (* every operation succeeded, and the proposal went through *)
+  all_ok (init_chain gen4) run_ex = true ∧
+  g_slashRatio (gparams (srun (init_chain gen4) run_ex)) = 30.
+Proof.
+  assert (Hb : bracketed Idle 0 run_ex) by (unfold run_ex; solve_bracketed).
+  assert (He : ext_along (init_chain gen4) run_ex) by (apply ext_alongb_sound; vm_compute; reflexivity).
+  split; [exact pr1_ok|]. split; [exact Hb|]. split; [exact He|].
+  split; [apply run_never_panics; [exact pr1_ok|exact Hb|exact He]|].
+  split; vm_compute; reflexivity.
+Qed.
+
+(* the hypotheses of the two block theorems on concrete states of this chain: before block 6
+   (rewards issued, an unbonding stake and an open proposal committed) and inside block 6, whose
+   EndBlock freezes the proposal *)
+Example block_theorems_ex :
+  let s5 := srun (init_chain gen4) (run_a (Some opt_slash)) in
+  let s6 := srun (init_chain gen4) (run_a (Some opt_slash) ++ [SBegin (hdr 6)]) in
+  (reward_heights_ok s5 ∧ heights_ok s5 ∧ committed s5 ≠ [] ∧ size (rewards (work s5)) = 2%nat) ∧
+  (0 ≤ g_maxValidatorCnt (gparams s6) ∧ keys_ok s6 ∧ gov_ok (λ _, True) (base_of s6) ∧
+   frozen_owned (accts (work s6)) (base_of s6) ∧
+   size (props (base_of s6)) = 1%nat ∧ size (frozen (base_of s6)) = 1%nat) ∧
+  (∃ ups, (end_block s6).2 = Ok ups) ∧ size (fprops (work (end_block s6).1)) = 1%nat.
+Proof.
+  cbv zeta. split; [|split; [|split]].
+  - assert (Hb : bracketed Idle 0 (run_a (Some opt_slash))) by solve_bracketed.
+    assert (He : ext_along (init_chain gen4) (run_a (Some opt_slash))) by (apply ext_alongb_sound; vm_compute; reflexivity).
+    destruct (run_invariant gen4 _ pr1_ok Hb He) as ((Hcore & _) & _ & Hh & _). cbv zeta in *.
+    destruct Hcore as (_ & _ & (_ & _ & Hr) & _).
+    split; [exact Hr|]. split; [exact Hh|]. split; [vm_compute; discriminate|vm_compute; reflexivity].
+  - assert (Hb : bracketed Idle 0 (run_a (Some opt_slash) ++ [SBegin (hdr 6)])) by solve_bracketed.
+    assert (He : ext_along (init_chain gen4) (run_a (Some opt_slash) ++ [SBegin (hdr 6)])) by (apply ext_alongb_sound; vm_compute; reflexivity).
+    destruct (run_invariant gen4 _ pr1_ok Hb He) as (_ & _ & _ & Hg & Hf & Hk). cbv zeta in *.
+    split; [vm_compute; discriminate|]. split; [apply Hk; vm_compute; discriminate|].
+    split; [exact Hg|]. split; [exact Hf|]. split; vm_compute; reflexivity.
+  - eexists. vm_compute. reflexivity.
+  - vm_compute. reflexivity.
+Qed.
+
+(* ------------------------------------------------------------------ N2/N3: the hypotheses are needed *)
+(* (e) votes in the first block (excluded by Tendermint: block 1 has no LastCommitInfo) *)
+Theorem begin_block_never_panics_refuted_votes : ∃ g hd,
+  params_ok (gen_params g) ∧ h_height hd = last_height (init_chain g) + 1 ∧
+  (begin_block (init_chain g) hd).2 = Panic P_BEGINBLOCK.
+Proof.
+  exists gen4, {| h_height := 1; h_proposer := Some 1%N; h_votes := [(1%N, 100, true)]; h_evidence := [] |}.
+  split; [exact pr1_ok|]. split; vm_compute; reflexivity.
+Qed.
+
+(* (f) EndBlock twice in the block that freezes a proposal: the second DelFinality fails *)
+Theorem end_block_never_panics_refuted_bracket : ∃ g ops,
+  params_ok (gen_params g) ∧ all_ok (init_chain g) (ops ++ [SEnd]) = true ∧
+  (end_block (srun (init_chain g) (ops ++ [SEnd]))).2 = Panic P_ENDBLOCK.
+Proof.
+  exists gen4, (run_a (Some opt_slash) ++ [SBegin (hdr 6)]).
+  split; [exact pr1_ok|]. split; vm_compute; reflexivity.
+Qed.
+
+(* (g) [payload_consistent] dropped: a proposal flagged as parsable whose option does not parse
+   wins the vote; applyProposals fails at its applying height *)
+Theorem run_never_panics_refuted_consistent : ∃ g ops,
+  params_ok (gen_params g) ∧ all_ok (init_chain g) ops = true ∧
+  (end_block (srun (init_chain g) ops)).2 = Panic P_ENDBLOCK.
+Proof.
+  exists gen4, (run_a None ++ run_b ++ [SBegin (hdr 7)]).
+  split; [exact pr1_ok|]. split; vm_compute; reflexivity.
+Qed.
+
+(* (h) [proposal_params_ok] dropped: the winning option sets maxValidatorCnt to -1; once it is in
+   force EndBlock's validator selection slices with a negative bound, and an unstaking transaction
+   divides by the limiter's zero base *)
+Definition opt_bad : params := {|
+  g_version := 0; g_maxValidatorCnt := -1; g_minValidatorStake := 0; g_minDelegatorStake := 0;
+  g_rewardPerPower := 0; g_lazyRewardBlocks := 0; g_lazyApplyingBlocks := 0; g_gasPrice := 0;
+  g_minTrxGas := 0; g_maxTrxGas := 0; g_maxBlockGas := 0; g_minVotingPeriodBlocks := 0;
+  g_maxVotingPeriodBlocks := 0; g_minSelfStakeRatio := 0; g_maxUpdatableStakeRatio := 0;
+  g_maxIndividualStakeRatio := 0; g_slashRatio := 0; g_signedBlocksWindow := 0; g_minSignedBlocks := 0 |}.
+
+Theorem run_never_panics_refuted_params : ∃ g ops t,
+  params_ok (gen_params g) ∧ all_ok (init_chain g) ops = true ∧ tx_wf t ∧ payload_kind_ok t ∧
+  (end_block (srun (init_chain g) ops)).2 = Panic P_SELECT ∧
+  (deliver (srun (init_chain g) ops) t).2 = Panic P_LIMITER_DIV.
+Proof.
+  exists gen4, (run_a (Some opt_bad) ++ run_b ++ run_c), (mk_tx TRX_UNSTAKING 3%N 3%N 0 10 100 1 (PUnstake 61%N true)).
+  split; [exact pr1_ok|]. split; [vm_compute; reflexivity|]. split; [zc|].
+  split; [intros _; eexists _, _; reflexivity|]. split; vm_compute; reflexivity.
+Qed.
+
+Print Assumptions deliver_never_panics.
+Print Assumptions begin_block_never_panics.
+Print Assumptions end_block_never_panics.
+Print Assumptions run_never_panics.
+Print Assumptions deliver_panics_reachable.
+Print Assumptions run_never_panics_refuted_params.
